@@ -499,6 +499,8 @@ func (s *Session) Run() {
 	s.ep[1].fr = http2.NewFramer(s.srv, s.srv)
 	if s.Case.Hook {
 		atomic.StoreInt32(&s.hookOn, 1)
+	} else if s.Plan.SlowWriter {
+		atomic.StoreInt32(&s.hookOn, 2)
 	}
 	hookSess.Store(s)
 
